@@ -23,7 +23,7 @@ h_compute(void)
 	IN_BYTES(pub, CRYPTO_DH_PUBLEN, CRYPTO_DH_PUBLEN);
 	uint8_t * key = malloc(CRYPTO_DH_KEYLEN);
 	__CPROVER_assume(key != NULL);
-	g_bn_secret_priv = priv;
+	g_bn.secret_priv = priv;
 	bn_val_t y = spec_be_val(pub, 256);
 	int rc;
 
